@@ -47,11 +47,23 @@ Theorem C06_routing_contribution_correct : forall (t : tmpl) (field v : string),
 Proof. exact routing_contribution_correct_l. Qed.
 Print Assumptions C06_routing_contribution_correct.
 
+(* the same for template STRINGS: aip_class_str reads the text (one brace pair occupying whole segments, key or
+   key=sub inside) and applies aip_class; whatever it accepts prints back to the very same string *)
+Theorem C06_routing_contribution_correct_str : forall (s field v : string),
+  aip_class_str s = true -> nl_free v = true ->
+  exists t, aip_parse s = Some t /\ tmpl_print t = s /\
+            contribution {| p_field := field; p_template := s |} v = Ok (aip_contribution t v).
+Proof. exact routing_contribution_correct_str_l. Qed.
+Print Assumptions C06_routing_contribution_correct_str.
+
 Definition ex_tmpl : tmpl :=
   {| t_pre := [SLit "projects"; SStar]; t_key := "table_location"; t_short := false;
      t_sub := [SLit "instances"; SStar]; t_post := [SLit "tables"; SDstar] |}.
 Example C06_ex_contribution :
   aip_class ex_tmpl = true /\
+  aip_class_str "projects/*/{table_location=instances/*}/tables/**" = true /\
+  aip_parse "projects/*/{table_location=instances/*}/tables/**" = Some ex_tmpl /\
+  aip_class_str "{k=**/x}" = false /\ aip_class_str "a.b/{k=*}" = false /\ aip_class_str "{a}/{b}" = false /\
   tmpl_print ex_tmpl = "projects/*/{table_location=instances/*}/tables/**" /\
   regex_str (tmpl_print ex_tmpl) = Ok "^projects/[^/]+/(?P<table_location>instances/[^/]+)/tables(?:/.*)?$" /\
   nl_free "projects/p 1/instances/i-2/tables/t/x" = true /\
